@@ -170,6 +170,8 @@ def handle : Handler := fun op inp impl => do
         let unack := !partChanged || (w'.br.map (·.hashSame)) == some false
         holds := holds ++ [("C01.partition_change_unacknowledged", unack), ("C02.partition_change_unacknowledged", unack),
                            ("C11.partition_change_unacknowledged", unack)]
+        holds := holds ++ [("C02.natural_advance_starts_init", RV.Oracle.RolloutSM.naturalAdvanceStartsInit w r),
+                           ("C03.natural_advance_starts_init", RV.Oracle.RolloutSM.naturalAdvanceStartsInit w r)]
         let implBrWritten := (jopt impl "brWritten").bind (fun x => x.getBool?.toOption) |>.getD false
         holds := holds ++ [("C07.br_write_changes_it", !implBrWritten || w'.br != w.br),
                            ("C02.br_write_changes_it", !implBrWritten || w'.br != w.br)]
